@@ -7,4 +7,4 @@ Separate Extraction
   Machine.step Machine.run Machine.init_state Machine.listed Machine.get_store Machine.get_links
   Store.has Store.get_filtered Store.api_step
   Roles.has_link Roles.get_roles Roles.get_users
-  Priority.sort_by_priority.
+  Priority.sort_by_priority Priority.sort_by_hierarchy.
